@@ -251,7 +251,7 @@ func c19Run(t *rapid.T, st *Stats) {
 		"Sign":            func(t *rapid.T) { doSign(t, false) },
 		"ValidateAndSign": func(t *rapid.T) { doSign(t, true) },
 		"UnmarshalCOSE": func(t *rapid.T) {
-			kind := rapid.SampledFrom([]string{"valid", "valid", "other-profile", "tampered-signature", "payload-not-claims", "garbage", "truncated", "own-last-token"}).Draw(t, "token")
+			kind := rapid.SampledFrom([]string{"valid", "valid", "other-profile", "tampered-signature", "payload-not-claims", "payload-bad-claim", "payload-bad-claim", "garbage", "truncated", "own-last-token"}).Draw(t, "token")
 			ki := rapid.IntRange(0, len(keys)-1).Draw(t, "key")
 			k := keys[ki]
 			var tok []byte
@@ -272,6 +272,25 @@ func c19Run(t *rapid.T, st *Stats) {
 				}
 			case "payload-not-claims":
 				pl := rapid.SampledFrom([][]byte{{0x01}, {0x80}, {0x61, 0x61}, {0xf6}, {0xa0, 0x00}}).Draw(t, "payload")
+				tok, _ = icose.SignedToken(k.Alg, k.Priv, pl)
+				layer = "claims"
+			case "payload-bad-claim":
+				// a correctly signed envelope whose payload IS a claims map of a
+				// registered profile, with one claim of the wrong CBOR type (or
+				// an unknown profile): the COSE layer succeeds, the claims
+				// layer fails after having started to fill a claims object
+				p := drawProf(t)
+				m := GenValid(t, p, false)
+				root := m.WireNode()
+				ts := targetsOf(p, root)
+				w := ts[rapid.IntRange(0, len(ts)-1).Draw(t, "target")]
+				if _, ok := applyWireMut(p, root, m, w, "wrongtype", rapid.IntRange(0, 63).Draw(t, "pick")); !ok {
+					t.Skip("mutation does not apply")
+				}
+				pl := icbor.Encode(root)
+				if _, derr := psatoken.DecodeClaimsFromCBOR(pl); derr == nil {
+					t.Skip("payload still decodes")
+				}
 				tok, _ = icose.SignedToken(k.Alg, k.Priv, pl)
 				layer = "claims"
 			case "garbage":
@@ -390,7 +409,7 @@ func c19Run(t *rapid.T, st *Stats) {
 }
 
 func TestC19_EvidenceHistories(t *testing.T) {
-	st := NewStats("C19", "TestC19_EvidenceHistories", "rapid state machine on one Evidence (avg 30 steps): SetClaims(valid|invalid), Sign / ValidateAndSign with good signers (EdDSA, ES256, ES384, PS256 keys) and injected signer faults (error, empty signature, nil signature, junk bytes, unsupported algorithm, reserved algorithm 0), UnmarshalCOSE(valid | tampered-signature | payload-not-claims | garbage | truncated | own last token), Verify with every pool key and nil, two consecutive signs. Reference model of the envelope state {none, tok(T,k), maybe(T,k)} and of claim replacement; binding clause evaluated with the independent splitter/verifier at every successful Verify. Non-trivial = history has a failed operation followed by Verify, or a decode after a sign; distinct = history")
+	st := NewStats("C19", "TestC19_EvidenceHistories", "rapid state machine on one Evidence (avg 30 steps): SetClaims(valid|invalid), Sign / ValidateAndSign with good signers (EdDSA, ES256, ES384, PS256 keys) and injected signer faults (error, empty signature, nil signature, junk bytes, unsupported algorithm, reserved algorithm 0), UnmarshalCOSE(valid | tampered-signature | payload-not-claims | correctly signed claims map with one wrong-typed claim | garbage | truncated | own last token), Verify with every pool key and nil, two consecutive signs. Reference model of the envelope state {none, tok(T,k), maybe(T,k)} and of claim replacement; binding clause evaluated with the independent splitter/verifier at every successful Verify. Non-trivial = history has a failed operation followed by Verify, or a decode after a sign; distinct = history")
 	st.Require = []string{"fail-then-verify", "decode-after-sign", "signer-fault", "good-sign"}
 	defer st.Flush(t)
 	rapid.Check(t, func(t *rapid.T) { c19Run(t, st) })
